@@ -1,1 +1,381 @@
-fn main(){}
+//! `mcb c20 ...` — C20: local storage backends are exact maps and publish files atomically.
+//! SEQ on the file system against the in-memory map as reference model, for LocalBackend,
+//! OpenDAL(fs) and OpenDAL(memory); crash image taken at LocalBackend's pre-publish hook.
+
+use std::{
+    collections::{BTreeMap, BTreeSet, HashSet, VecDeque},
+    fs,
+    path::{Path, PathBuf},
+    sync::{Arc, Mutex},
+};
+
+use bytes::Bytes;
+use rustic_backend::{LocalBackend, OpenDALBackend};
+use rustic_core::{FileType, Id, WriteBackend};
+use serde::{Deserialize, Serialize};
+use serde_json::{Value, json};
+use vkit::{
+    backend::{Store, ft_name},
+    fsx::sandbox,
+    report::{Args, Report},
+};
+
+#[derive(Clone, Copy, Debug, PartialEq, Eq, Serialize, Deserialize, Hash, PartialOrd, Ord)]
+enum Kind {
+    Local,
+    OpendalFs,
+    OpendalMemory,
+}
+
+fn make_backend(kind: Kind, dir: &Path) -> Arc<dyn WriteBackend> {
+    match kind {
+        Kind::Local => Arc::new(LocalBackend::new(dir.to_str().unwrap(), std::iter::empty()).expect("local backend")),
+        Kind::OpendalFs => {
+            let mut o = BTreeMap::new();
+            _ = o.insert("root".to_string(), dir.to_str().unwrap().to_string());
+            // no retries: an expected failure (reading an absent file) must not be waited for
+            _ = o.insert("retry".to_string(), "false".to_string());
+            Arc::new(OpenDALBackend::new("fs", o).expect("opendal fs"))
+        }
+        Kind::OpendalMemory => {
+            let mut o = BTreeMap::new();
+            _ = o.insert("retry".to_string(), "false".to_string());
+            Arc::new(OpenDALBackend::new("memory", o).expect("opendal memory"))
+        }
+    }
+}
+
+const TYPES: [FileType; 5] = [FileType::Config, FileType::Key, FileType::Snapshot, FileType::Index, FileType::Pack];
+
+fn ids() -> [Id; 3] {
+    [
+        // i1 and i2 share the first byte (same data/ab directory), i3 does not
+        format!("ab{}", "11".repeat(31)).parse().unwrap(),
+        format!("ab{}", "22".repeat(31)).parse().unwrap(),
+        format!("cd{}", "33".repeat(31)).parse().unwrap(),
+    ]
+}
+
+fn content(i: usize) -> Bytes {
+    match i {
+        0 => Bytes::new(),
+        2 => Bytes::from_static(b"x"),
+        1 => Bytes::from((0..4097u32).map(|x| (x * 7 % 251) as u8).collect::<Vec<u8>>()),
+        _ => Bytes::from((0..3 * 1024 * 1024u32).map(|x| (x.wrapping_mul(2654435761) >> 24) as u8).collect::<Vec<u8>>()),
+    }
+}
+
+#[derive(Clone, Debug, Serialize, Deserialize, PartialEq, Eq, Hash)]
+enum Op {
+    Write { tpe: usize, id: usize, content: usize },
+    Remove { tpe: usize, id: usize },
+}
+
+#[derive(Clone, Debug, Serialize, Deserialize, PartialEq, Eq, Hash)]
+enum Stray {
+    NonHex,
+    Hex63,
+    Hex65,
+    UpperHex,
+    TmpFile,
+    DirNamedLikeId,
+    ForeignDataDir,
+}
+
+fn plant_strays(dir: &Path, strays: &[Stray]) {
+    let i = ids();
+    for s in strays {
+        for sub in ["snapshots", "index", "keys", "data/ab"] {
+            let d = dir.join(sub);
+            _ = fs::create_dir_all(&d);
+            match s {
+                Stray::NonHex => _ = fs::write(d.join("README.txt"), b"hello"),
+                Stray::Hex63 => _ = fs::write(d.join("a".repeat(63)), b"short name"),
+                Stray::Hex65 => _ = fs::write(d.join("a".repeat(65)), b"long name"),
+                Stray::UpperHex => _ = fs::write(d.join("AB".repeat(32)), b"upper case name"),
+                Stray::TmpFile => _ = fs::write(d.join(format!("{}-tmp-", i[0].to_hex().as_str())), b"partial"),
+                // a directory whose name is a valid id (one that no operation uses)
+                Stray::DirNamedLikeId => _ = fs::create_dir_all(d.join(format!("ef{}", "44".repeat(31)))),
+                Stray::ForeignDataDir => {}
+            }
+        }
+        if *s == Stray::ForeignDataDir {
+            _ = fs::create_dir_all(dir.join("data/zz"));
+            _ = fs::write(dir.join("data/zz/notes"), b"foreign");
+            _ = fs::create_dir_all(dir.join("unrelated"));
+            _ = fs::write(dir.join("unrelated").join(i[1].to_hex().as_str()), b"foreign id-named file elsewhere");
+        }
+    }
+}
+
+fn apply_model(m: &mut Store, op: &Op) -> bool {
+    let i = ids();
+    match op {
+        Op::Write { tpe, id, content: c } => {
+            m.put(TYPES[*tpe], &i[*id], content(*c));
+            true
+        }
+        Op::Remove { tpe, id } => m.del(TYPES[*tpe], &i[*id]),
+    }
+}
+
+fn apply_real(be: &Arc<dyn WriteBackend>, op: &Op) -> Result<(), String> {
+    let i = ids();
+    match op {
+        Op::Write { tpe, id, content: c } => be.write_bytes(TYPES[*tpe], &i[*id], false, content(*c).into()).map_err(|e| e.display_log()),
+        Op::Remove { tpe, id } => be.remove(TYPES[*tpe], &i[*id], false).map_err(|e| e.display_log()),
+    }
+}
+
+/// compare every observation of the backend with the model
+fn observe(kind: Kind, be: &Arc<dyn WriteBackend>, m: &Store, rep: &mut Report) -> Result<(), (String, String)> {
+    let k = format!("{kind:?}");
+    let i = ids();
+    for t in TYPES {
+        let mut want: Vec<(Id, u32)> = m.list(t);
+        want.sort();
+        // config has the fixed id
+        let mut got = be.list_with_size(t).map_err(|e| (format!("C20/{k}/list_with_size/error"), e.display_log()))?;
+        got.sort();
+        rep.inc("observations");
+        if got != want {
+            return Err((format!("C20/{k}/list_with_size/{}", ft_name(t)), format!("listing with sizes {got:?}, model {want:?}")));
+        }
+        let mut got_ids = be.list(t).map_err(|e| (format!("C20/{k}/list/error"), e.display_log()))?;
+        got_ids.sort();
+        let want_ids: Vec<Id> = want.iter().map(|(i, _)| *i).collect();
+        rep.inc("observations");
+        if got_ids != want_ids {
+            return Err((format!("C20/{k}/list/{}", ft_name(t)), format!("listing {got_ids:?}, model {want_ids:?}")));
+        }
+        for id in &i {
+            rep.inc("observations");
+            let model = m.get(t, id);
+            match (be.read_full(t, id), model) {
+                (Ok(d), Some(w)) if d == *w => {}
+                (Err(_), None) => {}
+                (Ok(d), Some(w)) => return Err((format!("C20/{k}/read_full/{}", ft_name(t)), format!("read {} bytes, model has {} bytes", d.len(), w.len()))),
+                (Ok(d), None) => return Err((format!("C20/{k}/read_full/absent/{}", ft_name(t)), format!("read {} bytes of a file the model does not have", d.len()))),
+                (Err(e), Some(_)) => return Err((format!("C20/{k}/read_full/error/{}", ft_name(t)), e.display_log())),
+            }
+            if let Some(w) = model {
+                let n = w.len();
+                let mut grid: BTreeSet<usize> = [0usize, 1, n / 2, n.saturating_sub(1), n].into_iter().filter(|x| *x <= n).collect();
+                if n > 4096 {
+                    _ = grid.insert(4096);
+                    _ = grid.insert(4095);
+                }
+                for off in &grid {
+                    for len in &grid {
+                        if off + len > n {
+                            continue;
+                        }
+                        rep.inc("observations");
+                        match be.read_partial(t, id, false, *off as u32, *len as u32) {
+                            Ok(d) if d[..] == w[*off..off + len] => {}
+                            Ok(d) => return Err((format!("C20/{k}/read_partial/{}", ft_name(t)), format!("read_partial({off},{len}) returned {} bytes differing from the model", d.len()))),
+                            Err(e) => return Err((format!("C20/{k}/read_partial/error/{}", ft_name(t)), format!("read_partial({off},{len}) of a {n} byte file: {}", e.display_log()))),
+                        }
+                    }
+                }
+            }
+        }
+    }
+    Ok(())
+}
+
+#[derive(Clone, Debug, Serialize, Deserialize)]
+struct Case {
+    kind: Kind,
+    strays: Vec<Stray>,
+    history: Vec<Op>,
+}
+
+/// crash images taken at the pre-publish hook: (path of the copy, model before the write, target)
+type Crash = Arc<Mutex<Vec<PathBuf>>>;
+
+/// copy all files (directories are only created when they hold something)
+fn copy_dir(src: &Path, dst: &Path) {
+    if let Ok(rd) = fs::read_dir(src) {
+        for e in rd.flatten() {
+            let p = e.path();
+            let d = dst.join(e.file_name());
+            if p.is_dir() {
+                copy_dir(&p, &d);
+            } else {
+                _ = fs::create_dir_all(dst);
+                _ = fs::copy(&p, &d);
+            }
+        }
+    }
+}
+
+/// run a history from scratch; after every step compare with the model
+fn run_case(c: &Case, sb: &Path, rep: &mut Report, observe_every_step: bool) -> Result<Store, (String, String)> {
+    let k = format!("{:?}", c.kind);
+    let dir = sb.join("repo");
+    _ = fs::remove_dir_all(&dir);
+    fs::create_dir_all(&dir).unwrap();
+    let be = make_backend(c.kind, &dir);
+    // `create` (260 directories for the local backend) is exercised by the single-stray cases
+    // only; writes create what they need
+    if c.strays.len() == 1 {
+        be.create().map_err(|e| (format!("C20/{k}/create"), e.display_log()))?;
+    }
+    if c.kind != Kind::OpendalMemory {
+        plant_strays(&dir, &c.strays);
+    }
+    let mut m = Store::default();
+    let crash_dir = sb.join("crash");
+    for (n, op) in c.history.iter().enumerate() {
+        let before = m.clone();
+        let model_ok = apply_model(&mut m, op);
+        // crash image at the publish point of LocalBackend writes
+        let images: Crash = Arc::new(Mutex::new(Vec::new()));
+        if c.kind == Kind::Local && matches!(op, Op::Write { .. }) {
+            let (src, dst, im) = (dir.clone(), crash_dir.clone(), images.clone());
+            rustic_backend::verif::set_pre_publish(Some(Arc::new(move |_tmp, _fin| {
+                _ = fs::remove_dir_all(&dst);
+                copy_dir(&src, &dst);
+                im.lock().unwrap().push(dst.clone());
+            })));
+        }
+        let real = apply_real(&be, op);
+        rustic_backend::verif::set_pre_publish(None);
+        rep.inc("transitions");
+        match (&real, model_ok) {
+            (Ok(()), true) => {}
+            (Err(_), false) => {}
+            // removing an absent file: the statement does not say whether this is an error
+            (Ok(()), false) => rep.inc("remove_absent_ok"),
+            (Err(e), true) => return Err((format!("C20/{k}/op-error"), format!("step {n} {op:?}: {e}"))),
+        }
+        if observe_every_step || n + 1 == c.history.len() {
+            observe(c.kind, &be, &m, rep).map_err(|(s, msg)| (s, format!("after step {n} {op:?}: {msg}")))?;
+        }
+        // the crash image shows the state before the write: no partial file is listed, the target
+        // reads as before (or is absent)
+        for img in images.lock().unwrap().iter() {
+            rep.inc("crash_images");
+            let be2 = make_backend(Kind::Local, img);
+            observe(Kind::Local, &be2, &before, rep).map_err(|(s, msg)| (format!("{s}[crash-before-publish]"), format!("crash image before publishing step {n} {op:?}: {msg}")))?;
+        }
+    }
+    Ok(m)
+}
+
+fn actions(types: &[usize], ncontent: usize, m: &Store) -> Vec<Op> {
+    let i = ids();
+    let mut v = Vec::new();
+    for &t in types {
+        let nid = if TYPES[t] == FileType::Config { 1 } else { 3 };
+        for id in 0..nid {
+            for c in 0..ncontent {
+                v.push(Op::Write { tpe: t, id, content: c });
+            }
+            // removing an absent file is explored once per type (id 0) only
+            if m.get(TYPES[t], &i[id]).is_some() || id == 0 {
+                v.push(Op::Remove { tpe: t, id });
+            }
+        }
+    }
+    v
+}
+
+fn canon(m: &Store) -> String {
+    let mut v: Vec<String> = m.files.iter().map(|(t, i, d)| format!("{}:{}:{}", ft_name(*t), &i.to_hex().as_str()[..4], d.len())).collect();
+    v.sort();
+    v.join(",")
+}
+
+fn main() {
+    let args = Args::parse();
+    let mut rep = Report::new(&args);
+    rep.property = "C20".into();
+    let sb = sandbox(&format!("c20-{}", args.shard));
+    run(&args, &mut rep, &sb);
+    _ = fs::remove_dir_all(&sb);
+    rep.finish(&args);
+}
+
+fn run(args: &Args, rep: &mut Report, sb: &Path) {
+    if let Some(p) = &args.replay {
+        let v: Value = serde_json::from_str(&fs::read_to_string(p).unwrap()).unwrap();
+        let c: Case = serde_json::from_value(v["case"].clone()).unwrap();
+        rep.inc("executions");
+        if let Err((sig, msg)) = run_case(&c, sb, rep, true) {
+            rep.violation(sig, msg, v["case"].clone());
+        }
+        return;
+    }
+    let quick = args.quick();
+    let depth = if quick { 3 } else { 4 };
+    let ncontent = if quick { 2 } else { 4 };
+    rep.set_meta("bounds", json!(format!("BFS depth {depth} over write/remove on types {{config, snapshot, pack}} x 3 ids (two sharing a data/xx directory) x {ncontent} contents (0 B, 4097 B{}), depth 2 over all five types; after every step every list, list_with_size, read_full of every id and read_partial over the grid {{0,1,mid,len-1,len,4095,4096}}^2 in range is compared with the map model; for LocalBackend additionally with each single stray kind and all strays together; crash image at the pre-publish hook of every LocalBackend write", if quick { "" } else { ", 1 B, 3 MiB" })));
+    let all_strays = vec![Stray::NonHex, Stray::Hex63, Stray::Hex65, Stray::TmpFile, Stray::DirNamedLikeId, Stray::ForeignDataDir];
+    let mut configs: Vec<(Kind, Vec<Stray>)> = vec![(Kind::Local, vec![]), (Kind::OpendalFs, vec![]), (Kind::OpendalMemory, vec![]), (Kind::Local, all_strays.clone()), (Kind::OpendalFs, all_strays.clone())];
+    let mut first_level = 0usize;
+    for (kind, strays) in configs.drain(..) {
+        // BFS over model states; every transition re-runs its history on a fresh backend
+        for (types, d) in [(vec![0usize, 2, 4], depth), (vec![0usize, 1, 2, 3, 4], 2usize)] {
+            let mut seen: HashSet<String> = HashSet::new();
+            let mut frontier: VecDeque<(Vec<Op>, Store)> = VecDeque::new();
+            frontier.push_back((vec![], Store::default()));
+            _ = seen.insert(canon(&Store::default()));
+            while let Some((hist, m)) = frontier.pop_front() {
+                if hist.len() >= d {
+                    continue;
+                }
+                for op in actions(&types, ncontent, &m) {
+                    if hist.is_empty() {
+                        first_level += 1;
+                        if first_level % args.nshards != args.shard {
+                            continue;
+                        }
+                    }
+                    let mut h2 = hist.clone();
+                    h2.push(op.clone());
+                    let case = Case { kind, strays: strays.clone(), history: h2.clone() };
+                    rep.inc("executions");
+                    rep.inc(&format!("executions:{kind:?}{}", if strays.is_empty() { "" } else { "+strays" }));
+                    // the prefix was observed when it was explored: observe the last step only
+                    match run_case(&case, sb, rep, false) {
+                        Ok(m2) => {
+                            let c = canon(&m2);
+                            _ = rep.distinct("state", &(format!("{kind:?}"), strays.len(), &c));
+                            if seen.insert(c) {
+                                frontier.push_back((h2, m2));
+                            }
+                            if rep.samples.len() < 3 && case.history.len() == 3 {
+                                rep.sample(serde_json::to_value(&case).unwrap());
+                            }
+                        }
+                        Err((sig, msg)) => {
+                            if !rep.has_violation(&sig) {
+                                rep.violation(sig, msg, serde_json::to_value(&case).unwrap());
+                            } else {
+                                rep.inc("violations_raw");
+                            }
+                        }
+                    }
+                }
+            }
+        }
+    }
+    // single stray kinds incl. upper-case hex names, short histories
+    if args.shard == 0 {
+        for kind in [Kind::Local, Kind::OpendalFs] {
+            for s in [Stray::NonHex, Stray::Hex63, Stray::Hex65, Stray::UpperHex, Stray::TmpFile, Stray::DirNamedLikeId, Stray::ForeignDataDir] {
+                let case = Case { kind, strays: vec![s.clone()], history: vec![Op::Write { tpe: 2, id: 0, content: 1 }, Op::Write { tpe: 4, id: 1, content: 2 }, Op::Remove { tpe: 2, id: 0 }] };
+                rep.inc("executions");
+                rep.inc("single_stray_cases");
+                if let Err((sig, msg)) = run_case(&case, sb, rep, true) {
+                    let sig = if s == Stray::UpperHex { format!("C20/{kind:?}/upper-case-hex-name-listed") } else { format!("{sig}[stray:{s:?}]") };
+                    if !rep.has_violation(&sig) {
+                        rep.violation(sig, msg, serde_json::to_value(&case).unwrap());
+                    }
+                }
+            }
+        }
+    }
+}
